@@ -51,12 +51,16 @@ func (t *transformer) OnRequest(obj public_types.APIStreamI) (actions.ReqLunarAc
 	if err != nil {
 		return nil, fmt.Errorf("failed to prepare request: %w", err)
 	}
+	parsedURL := transformed.GetParsedURL()
+	if parsedURL == nil {
+		return nil, fmt.Errorf("failed to parse the URL of the transformed request")
+	}
 	obj.SetRequest(transformed)
 	return &actions.ModifyRequestAction{
 		HeadersToSet: obj.GetHeaders(),
 		Host:         obj.GetRequest().GetHost(),
 		Body:         obj.GetRequest().GetBody(),
-		Path:         obj.GetRequest().GetParsedURL().Path,
+		Path:         parsedURL.Path,
 		QueryParams:  obj.GetRequest().GetQuery(),
 	}, nil
 }
